@@ -72,12 +72,10 @@ func cmdHarness(args []string) int {
 	maxPaths := fs.Int("maxpaths", 0, "path limit")
 	doReplay := fs.Bool("replay", false, "replay findings natively")
 	fs.Parse(args[2:])
-	v, err := buildView(false, []string{pkg})
-	if err != nil {
-		fmt.Fprintln(os.Stderr, "view:", err)
-		return 2
+	_, w, dropped, err := loadIsolated([]string{pkg})
+	for _, f := range dropped {
+		fmt.Fprintln(os.Stderr, "left out (does not compile):", f)
 	}
-	w, err := loadWorld(v, []string{pkg})
 	if err != nil {
 		fmt.Fprintln(os.Stderr, "load:", err)
 		return 2
